@@ -15,6 +15,9 @@
 //! (`"inject":"double-drop"` is a self-test knob: every worker drops its clone of the first library once too often.)
 //! result = {"id","threads","ops","equal":bool,"diff":{..}|null,"xdrops":n,"xfail":[..],"events":[..],"panic"?}
 //!
+//! A round that runs longer than `limit_s` (default 60) ends the process: exit status 77 when it is still computing (a
+//! generated program that is too expensive; skipped), 78 when all threads are idle (deadlock).
+//!
 //! Every thread's transcript (per op: the `emit`/`print` output, exported values, outcome) is compared with the
 //! transcript of the same op list run alone on one thread (sequential baseline, before or after the concurrent
 //! phase).  `events` is the heap-level history (alloc/clone/send/recv/read/drop of frozen modules and handles) in
@@ -680,6 +683,37 @@ fn run_round(case: &J) -> J {
            "dump": dump})
 }
 
+/// CPU time (user + system, in clock ticks) consumed by this process so far.
+fn cpu_ticks() -> u64 {
+    let s = std::fs::read_to_string("/proc/self/stat").unwrap_or_default();
+    // fields after the closing parenthesis of the command name: state is field 3, utime 14, stime 15
+    let rest = s.rsplit(')').next().unwrap_or("");
+    let f: Vec<&str> = rest.split_whitespace().collect();
+    let g = |i: usize| f.get(i).and_then(|x| x.parse::<u64>().ok()).unwrap_or(0);
+    g(11) + g(12)
+}
+
+/// Watchdog of one round: when the round exceeds `limit_s` the process exits with 77 if it is still consuming CPU
+/// (a generated program that computes for too long: not a failure, the round is skipped) or 78 if it is idle
+/// (every thread blocked: a deadlock).
+fn watchdog(limit_s: u64, round: Arc<AtomicU64>, my_round: u64) {
+    let t0 = Instant::now();
+    while t0.elapsed() < Duration::from_secs(limit_s) {
+        std::thread::sleep(Duration::from_millis(200));
+        if round.load(Ordering::SeqCst) != my_round {
+            return;
+        }
+    }
+    let c0 = cpu_ticks();
+    std::thread::sleep(Duration::from_secs(3));
+    if round.load(Ordering::SeqCst) != my_round {
+        return;
+    }
+    let busy = cpu_ticks().saturating_sub(c0) >= 20;
+    eprintln!("WATCHDOG round over {} s, {}", limit_s, if busy { "still computing" } else { "idle: deadlock" });
+    std::process::exit(if busy { 77 } else { 78 });
+}
+
 fn main() {
     let args: Vec<String> = std::env::args().collect();
     if args.len() < 3 {
@@ -690,6 +724,7 @@ fn main() {
     starlark::verif_hooks::set_poison(true);
     let input = BufReader::new(File::open(&args[1]).expect("open cases"));
     let mut out = File::create(&args[2]).expect("create out");
+    let round_no = Arc::new(AtomicU64::new(0));
     for line in input.lines() {
         let line = line.expect("read line");
         if line.trim().is_empty() {
@@ -697,6 +732,11 @@ fn main() {
         }
         let case: J = serde_json::from_str(&line).expect("case json");
         eprintln!("START {}", case["id"]);
+        let my_round = round_no.fetch_add(1, Ordering::SeqCst) + 1;
+        {
+            let (r, limit) = (round_no.clone(), case["limit_s"].as_u64().unwrap_or(60));
+            std::thread::spawn(move || watchdog(limit, r, my_round));
+        }
         let r = match catch_unwind(AssertUnwindSafe(|| run_round(&case))) {
             Ok(v) => v,
             Err(e) => json!({"id": case["id"], "panic": panic_msg(&*e), "phase": "main"}),
